@@ -103,7 +103,9 @@ def run_roundtrip(ctx, case):
     ctx.require(lib.shape == shape + (d, d), 'angle_to_*: shape')
     ctx.close(lib.reshape(-1, d, d), mats, 1e-12, 'angle_to_* = Rz(alpha) Ry(beta) Rz(gamma)')
     M = lib if case['via_lib'] else mats.reshape(shape + (d, d))
-    out = (g.su2_to_angle if su2 else g.so3_to_angle)(M.copy())
+    M_in = np.array(M, copy=True)
+    out = (g.su2_to_angle if su2 else g.so3_to_angle)(M_in)
+    ctx.close(M_in, M, 0, 'angle extraction does not modify the matrix it is given')
     ctx.require(len(out) == 3, 'three angles returned')
     a2, b2, g2 = [np.asarray(x, dtype=np.float64) for x in out]
     ctx.require(a2.shape == shape and b2.shape == shape and g2.shape == shape, 'angle shapes follow the batch shape', f'{a2.shape} vs {shape}')
